@@ -299,7 +299,11 @@ func call(e *entry, b []byte) (sig uint32, v *violation) {
 		if r := recover(); r != nil {
 			switch x := r.(type) {
 			case stateViolation:
-				v = &violation{Clause: "C04.state", Key: "undecodable frame changed link-service/dispatch state", Detail: x.msg}
+				k := x.key
+				if k == "" {
+					k = "undecodable frame changed link-service/dispatch state"
+				}
+				v = &violation{Clause: "C04.state", Key: k, Detail: x.msg}
 			case spinViolation:
 				v = &violation{Clause: "C04.spin", Key: x.msg, Detail: x.msg}
 			default:
